@@ -4,6 +4,7 @@ CONSTANTS
   MaxD = 2
   Depth = 2
   Rich = FALSE
+  Shaped = TRUE
   FormLevel = 1
 INVARIANT InvCoherent
 PROPERTY RefusalIsNoOp
